@@ -42,7 +42,11 @@ NPARTS = 16
 
 
 def _pre_existing():
-    return docs.resource([docs.lexicon_small(docs.P(), 'P', tag='p', ili='i1')], '1.1')
+    # P declares dependencies on lexicons of the resource that is added next: the add re-links
+    # them (UPDATE lexicon_dependencies) inside its transaction
+    return docs.resource([docs.lexicon_small(docs.P(), 'P', tag='p', ili='i1',
+                                             requires=[{'id': 'A', 'version': '1'},
+                                                       {'id': 'M', 'version': '1'}])], '1.1')
 
 
 def _victim():
